@@ -293,4 +293,110 @@ def rule_coroutines(ctx):
     rule_coroutines_run(ctx, 'C15.d', ['rsocket', 'reactivestreams'], 'library coroutine calls')
 
 
-RULES = [('C15.a', rule_a), ('C15.b', rule_b), ('C15.c', rule_c), ('C15.b', rule_plumbing), ('C01.e', rule_dispatch), ('C15.d', rule_coroutines), ('C16.c', rule_periods)]
+def rule_one_verdict(ctx):
+    """C15.e  The watchdog alone decides that the peer is dead.  The sender loop and the keepalive emitter it owns run
+    while is_server_alive() holds, so a connected, uninformed client keeps emitting only if that predicate is nothing
+    but the verdict of the watchdog:
+      * every is_server_alive() of a socket class returns a constant or the liveness flag - no clock, no timestamp,
+        nothing else that can change without the application having been told;
+      * the flag is set to anything but True in the watchdog alone (behind its comparison, C15.b)."""
+    rep = ctx.report
+    slots = ctx.slots
+    c = slots.RSocketClient
+    tmo = c.lookup('_keepalive_timeout_task')
+    if tmo is None:
+        raise AnalysisError('C15.e: keepalive timeout task vanished')
+    # the flag: what the watchdog clears before it tells the application
+    flags = set()
+    for n in walk_local(tmo.node):
+        if isinstance(n, ast.Assign) and isinstance(n.value, ast.Constant) and n.value.value is False:
+            for t in n.targets:
+                if isinstance(t, ast.Attribute) and isinstance(t.value, ast.Name) and t.value.id == 'self':
+                    flags.add(t.attr)
+    if len(flags) != 1:
+        raise AnalysisError('C15.e: the watchdog does not clear exactly one flag (%s)' % sorted(flags))
+    flag = next(iter(flags))
+    from ..astutil import returned_exprs
+    n_pred = 0
+    for k in ctx.repo.all_classes():
+        if not k.is_subclass_of(slots.RSocketBase):
+            continue
+        f = k.methods.get('is_server_alive')
+        if f is None or _is_abstract(f):
+            continue
+        n_pred += 1
+        ok, why = True, ''
+
+        def inspect(g, depth):
+            bad = []
+            rets = list(returned_exprs(g.node))
+            if not rets:
+                bad.append('no value returned')
+            for r in rets:
+                for x in ast.walk(r):
+                    if isinstance(x, ast.Call):
+                        fn = x.func
+                        if isinstance(fn, ast.Attribute) and isinstance(fn.value, ast.Name) and fn.value.id == 'self' \
+                                and k.lookup(fn.attr) is not None and depth < 2:
+                            bad.extend(inspect(k.lookup(fn.attr), depth + 1))
+                        elif isinstance(fn, ast.Name) and fn.id == 'bool':
+                            continue
+                        else:
+                            bad.append('calls %s' % ast.unparse(fn))
+                    elif isinstance(x, ast.Attribute) and isinstance(x.value, ast.Name) and x.value.id == 'self' and \
+                            isinstance(x.ctx, ast.Load) and x.attr != flag and k.lookup(x.attr) is None:
+                        bad.append('reads self.%s' % x.attr)
+            # locals computed before the return take part too
+            for x in walk_local(g.node):
+                if isinstance(x, ast.Assign):
+                    for y in ast.walk(x.value):
+                        if isinstance(y, ast.Call) and not (isinstance(y.func, ast.Name) and y.func.id == 'bool'):
+                            bad.append('calls %s' % ast.unparse(y.func))
+                        elif isinstance(y, ast.Attribute) and isinstance(y.value, ast.Name) and y.value.id == 'self' \
+                                and y.attr != flag:
+                            bad.append('reads self.%s' % y.attr)
+            return bad
+
+        bad = inspect(f, 0)
+        rep.add('C15.e', '%s.is_server_alive / the watchdog verdict and nothing else' % k.name, f, not bad,
+                'returns %s' % ', '.join(ast.unparse(r) for r in returned_exprs(f.node)) if not bad else
+                'the loop condition of the sender %s: the sender - and with it the keepalive emitter - can stop although '
+                'no timeout has been reported' % ', '.join(sorted(set(bad))))
+    rep.require('C15.e', 'is_server_alive implementations', n_pred, 2)
+    # who clears the flag
+    n_st = 0
+    for f in ctx.repo.all_functions():
+        if not f.module.name.startswith('rsocket.') or f.module.name.startswith('rsocket.cli'):
+            continue
+        for n in walk_local(f.node):
+            targets = []
+            if isinstance(n, ast.Assign):
+                targets = [(t, n.value) for t in n.targets]
+            elif isinstance(n, (ast.AugAssign, ast.AnnAssign)) and n.value is not None:
+                targets = [(n.target, n.value)]
+            for t, v in targets:
+                if not (isinstance(t, ast.Attribute) and t.attr == flag):
+                    continue
+                n_st += 1
+                if isinstance(v, ast.Constant) and v.value is True:
+                    continue
+                if f is tmo:
+                    continue
+                rep.bad('C15.e', '%s / store to %s' % (f.qualname.split(':')[-1], flag), f,
+                        'self.%s = %s outside the watchdog: the sender and the keepalive emitter stop without a '
+                        'reported timeout' % (flag, ast.unparse(v)))
+    rep.require('C15.e', 'stores to the liveness flag', n_st, 2)
+    rep.ok('C15.e', 'liveness flag / cleared by the watchdog alone', tmo,
+           '%d stores to self.%s; every one outside %s sets True' % (n_st, flag, tmo.name))
+
+
+def _is_abstract(f):
+    if any('abstractmethod' in ast.unparse(d) for d in f.node.decorator_list):
+        return True
+    body = [s for s in f.node.body if not (isinstance(s, ast.Expr) and isinstance(s.value, ast.Constant) and
+                                           isinstance(s.value.value, str))]
+    return all(isinstance(s, ast.Pass) or (isinstance(s, ast.Expr) and isinstance(s.value, ast.Constant)) or
+               isinstance(s, ast.Raise) for s in body)
+
+
+RULES = [('C15.a', rule_a), ('C15.b', rule_b), ('C15.c', rule_c), ('C15.b', rule_plumbing), ('C01.e', rule_dispatch), ('C15.d', rule_coroutines), ('C16.c', rule_periods), ('C15.e', rule_one_verdict)]
